@@ -63,7 +63,8 @@ def check(ctx):
                    f'assumes the MDAnalysis box frame (a along x, b in the xy plane): for a rotated cell or a '
                    f'pymatgen-convention triclinic cell the periodic images are wrong and atoms are assigned to wrong sites')
         else:
-            ctx.ob('R1', fcas, e['node'], False, f'{e["which"]} receives {geo_text(g)}; Cartesian coordinates in the box frame are required')
+            coordlike = all(x[0] in ('FRAC', 'FDIFF', 'CART', 'RAW', 'CARTSQ', 'DIST') for x in gs)
+            ctx.ob('R1', fcas, e['node'], False if coordlike else None, f'{e["which"]} receives {geo_text(g)}; Cartesian coordinates in the box frame are required')
 
     # ---- R6 exactness domain of the search (API precondition)
     for e in trees:
